@@ -199,6 +199,8 @@ def _truth1(st, v, g):
 
 def eq(st, a, b):
     """z3 Bool: Python `a == b` (for the value kinds of the subset; never raises)."""
+    if a is b:
+        return BT
     res = []
     for ga, x in alts(a):
         for gb, y in alts(b):
